@@ -91,8 +91,15 @@ class Ref:
                 self.L = out
             else:
                 self.L = list(uniq_result)
+            # a list holding names of two different prefixes consists of at least two ranges: hostlist_uniq then sorts it and
+            # REWINDS every live iterator (each goes on from the start of the new list).  A list of one prefix may be a single
+            # range, which uniq leaves alone, iterators included: there the positions are unspecified until the iterator is reset.
+            self.rewound = len({x.rstrip(b"0123456789") for x in before}) >= 2
             for it in self.its.values():
-                it[0], it[1] = None, False       # positions are unspecified until the iterator is reset
+                if self.rewound:
+                    it[0], it[1] = 0, False
+                else:
+                    it[0], it[1] = None, False
             return ("uniq", before)
         if op == "iter_new":
             h = self.nit
@@ -293,10 +300,12 @@ class Plan:
             text, names = gen_expr(r, self.stems)
             self.emit("delete", hexs(text), names)
         elif k == "uniq":
+            multi = len({x.rstrip(b"0123456789") for x in L}) >= 2
             self.emit("uniq")
             self.pending_uniq = True
-            for h in sorted(ref.its):
-                self.emit("iter_reset", str(h), h)
+            if not (multi and r.chance(1, 2)):       # half of the time the iterators are used on without a reset: uniq has rewound them
+                for h in sorted(ref.its):
+                    self.emit("iter_reset", str(h), h)
         elif k == "iter_next":
             h = r.choice(usable)
             for _ in range(r.weighted([(1, 6), (2, 3), (4, 1)])):
@@ -682,6 +691,10 @@ def uniq_family(r, count):
         if not all(d02(n) for n in names):
             continue
         ops = [("push", hexs(b",".join(words)), names), ("uniq", None, None), ("count", None, None), ("iter_new", None, None)]
+        if len({q for (q, _a, _b) in pieces}) >= 2 and r.chance(2, 3):
+            # a live iterator that has advanced, uniq on an unsorted list, the iterator used on without a reset
+            N = ("iter_next", "0", 0)
+            ops = [ops[0], ("iter_new", None, None)] + [N] * r.range(1, 4) + [("uniq", None, None)] + [N] * r.range(2, 8) + [("count", None, None)]
         out.append(ops)
     return out
 
